@@ -82,6 +82,20 @@ func (e *Etcd) Close() {
 	os.RemoveAll(e.cfg.Dir)
 }
 
+// Mark returns a handle for CloseFrom: the number of clients created so far.
+func (e *Etcd) Mark() int { return len(e.all) }
+
+// CloseFrom closes the clients created since Mark (a driver calls it at the end of every case, so that long
+// runs do not accumulate connections and log sinks).
+func (e *Etcd) CloseFrom(n int) {
+	for i := n; i < len(e.all); i++ {
+		e.all[i].Close()
+	}
+	if n < len(e.all) {
+		e.all = e.all[:n]
+	}
+}
+
 // Mode of the next transaction commit of a controlled client.
 type Mode int
 
